@@ -26,6 +26,15 @@ def run(ck):
     S = Sink(ck)
     F = ck.facts
     ck.rule("C06-O1", "N <= 0: removeOldFiles() deletes nothing")
+    # who may delete: retention (the oldest rotated file) and compressFile (the original it has just compressed); nobody else, whatever N is
+    from rules.c05 import allowed_destructive
+    for f_, n_, k_ in S.destructive_sites():
+        if k_ != "remove":
+            continue
+        ok_, why_ = allowed_destructive(S, f_, n_, k_)
+        ck.ob("C06-O1", sitestr(f_, n_), ok_, "%s: %s" % (describe(n_)[:50], why_) if ok_ else
+              "%s deletes a file outside retention (%s): with N <= 0 nothing may ever be deleted, with N >= 2 only the oldest rotated files" % (strip_tmpl(f_.name).split("::")[-1], why_),
+              key="remove|%s|%s" % (strip_tmpl(f_.name).split("::")[-1], "ok" if ok_ else why_))
     ck.rule("C06-O2", "N == 1: rotate() neither closes nor renames the active file")
     ck.rule("C06-O3", "the deletion loop continues while |rotated| >= N, removes the inspected end of the list once per iteration, and rotate() runs it after the rename on every path")
     ck.rule("C06-O4", "candidates are sorted by the strict lexicographic order on (date, numeric index) captured from the rotated name, and the victim is the oldest end")
